@@ -97,7 +97,18 @@ pub fn run(ctx: &mut Ctx) {
             crate::special::c10_amortised(ctx);
         }
         "C04" => crate::special::c04(ctx),
-        "C12" => crate::special::c12(ctx),
+        "C12" => {
+            crate::special::c12(ctx);
+            // alignment and byte-view coherence are also watched after every step of the generic families,
+            // so that histories (grow, empty, shrink to zero, regrow, clone, round trips) are covered
+            if ctx.sub != "light" {
+                let sub: Vec<_> = cfgs.iter().filter(|c| c.resizable || c.elem.align <= 8).cloned().collect();
+                fam::exhaustive(ctx, "capacity", &sub, l, false, &fam::cap_ops);
+                fam::exhaustive(ctx, "clone", &sub, 3, false, &fam::clone_ops);
+                fam::exhaustive(ctx, "elem", &sub, 3, false, &fam::elem_seqs);
+                fam::histories(ctx, "mixed-hist", &sub, &hist(thorough, true, true, true, true));
+            }
+        }
         "C14" => {
             fam::exhaustive(ctx, "iter", &cfgs, l, false, &fam::iter_ops);
             fam::exhaustive(ctx, "range", &cfgs, l, false, &fam::range_ops);
